@@ -90,6 +90,9 @@ func TestC08Rapid(t *testing.T) {
 		l := &harness.Live{Property: "C08", Check: "C08/arith", Doc: doc, Ctx: ctx, AST: e, Expr: xast.Render(e), Flavour: flavourOf(rt)}
 		want, f := scalarOracle(l)
 		if f != nil {
+			if inconclusive(uC08, f) {
+				return
+			}
 			harness.Report(rt, uC08, l, f)
 		}
 		switch {
